@@ -404,7 +404,7 @@ func vc02ObserveResult(r filter.Result) (o vc02ref.Observed) {
 }
 
 func vc02MixCase(t *rapid.T, s string) string {
-	if rapid.IntRange(0, 2).Draw(t, "mixCase") != 0 {
+	if rapid.IntRange(0, 1).Draw(t, "mixCase") != 0 {
 		return s
 	}
 
@@ -628,7 +628,22 @@ func vc02DrawExch(t *rapid.T, env *vc02Env, focus string, prev *vc02Exch) (e *vc
 	change = "fresh"
 	if prev != nil && rapid.IntRange(0, 9).Draw(t, "nearMiss") < 7 {
 		e.who, e.host, e.qt = prev.who, prev.host, prev.qt
-		change = rapid.SampledFrom([]string{"requester", "requester", "requester", "qtype", "host", "nothing"}).Draw(t, "change")
+		change = rapid.SampledFrom([]string{"requester", "requester", "requester", "qtype", "host", "nothing", "case", "case"}).Draw(t, "change")
+		if change == "case" {
+			// Exactly the previous request, upstream script included, with
+			// only the spelling of the name changed.
+			if vname, has := vc02ref.CaseVariant(t, prev.sentReq.Question[0].Name); has {
+				e.script = prev.script
+				e.req = prev.sentReq.Copy()
+				e.req.Question[0].Name = vname
+				e.sentReq = e.req.Copy()
+
+				return e, change
+			}
+
+			change = "nothing"
+		}
+
 		switch change {
 		case "requester":
 			others := []*vc02Who{}
@@ -896,7 +911,7 @@ func TestVerifC02Shape(t *testing.T) {
 		"filtering-off-profile", "filtering-off-device", "anonymous-group-config", "profile-config", "blocked-over-nonempty-upstream",
 		"flag-off-hides-slot", "safety-verdict", "later-question-on-same-stack", "same-question-other-requester", "same-question-other-requester-blocked",
 		"identical-repeat", "near-miss-qtype", "near-miss-host", "concurrent-request", "concurrent-same-question-blocked", "edge-host-root-or-tld",
-		"own-allow-equals-shared-allow-with-safety-match")
+		"own-allow-equals-shared-allow-with-safety-match", "self-rewrite-target-queried-mixed-case", "case-variant-pair-compared")
 	st.Finish(t)
 
 	base := t.TempDir()
@@ -1096,9 +1111,26 @@ func TestVerifC02Shape(t *testing.T) {
 				extra = append(extra, "near-miss-host")
 			case "nothing":
 				extra = append(extra, "identical-repeat")
+			case "case":
+				extra = append(extra, "case-variant-pair-compared")
+			}
+
+			if sp := e.who.eff.SelfRewriteSpellings(e.host, e.qt); len(sp) > 0 && strings.TrimSuffix(e.sentReq.Question[0].Name, ".") != sp[0] {
+				extra = append(extra, "self-rewrite-target-queried-mixed-case")
 			}
 
 			record(e, extra...)
+			if change == "case" {
+				// DNS names are case-insensitive: the answer and the deciding rule
+				// do not depend on the spelling of the name.
+				a, b := vc02ref.FoldMsg(prev.rw.Msg()), vc02ref.FoldMsg(e.rw.Msg())
+				if a != b || prev.seen.statID != e.seen.statID || prev.seen.statText != e.seen.statText {
+					t.Fatalf("the answer depends on the letter case of the name (requester %s):\nquestion %v -> %s rule (%q, %q)\nquestion %v -> %s rule (%q, %q)",
+						e.who.name, prev.sentReq.Question, vc02ref.MsgString(prev.rw.Msg()), prev.seen.statID, prev.seen.statText,
+						e.sentReq.Question, vc02ref.MsgString(e.rw.Msg()), e.seen.statID, e.seen.statText)
+				}
+			}
+
 			prev = e
 		}
 
